@@ -252,6 +252,11 @@ class Transect:
         """
         data_crs = self.convention.data_crs
         globe = data_crs.globe
+        # The transect points are longitude / latitude pairs,
+        # and each TransectPoint CRS is centred on one of them.
+        # Project from the geodetic CRS, not from the PlateCarree projection,
+        # so that the centre point lands on the origin and distances are geodesic.
+        geodetic_crs = data_crs.as_geodetic()
 
         # Make the TransectPoint for the first point by hand.
         point = shapely.Point(self.line.coords[0])
@@ -269,7 +274,7 @@ class Transect:
             # Calculate the distance from the previous point
             # by using the AzimuthalEquidistant CRS centred on the previous point.
             distance_from_previous = ORIGIN.distance(
-                previous.crs.project_geometry(point, src_crs=data_crs))
+                previous.crs.project_geometry(point, src_crs=geodetic_crs))
 
             points.append(TransectPoint(
                 point=point,
@@ -383,7 +388,7 @@ class Transect:
             If the point does not fall on the line,
             the point is first projected to the line.
         """
-        data_crs = self.convention.data_crs
+        geodetic_crs = self.convention.data_crs.as_geodetic()
         distance_normalised = self.line.project(point, normalized=True)
         if distance_normalised < 0 or distance_normalised > 1:
             raise ValueError("Point is not on the line!")
@@ -394,7 +399,7 @@ class Transect:
             if lp.distance_normalised <= distance_normalised)
 
         distance_from_point: float = ORIGIN.distance(
-            line_point.crs.project_geometry(point, src_crs=data_crs))
+            line_point.crs.project_geometry(point, src_crs=geodetic_crs))
         return line_point.distance_metres + distance_from_point
 
     def make_poly_collection(
